@@ -439,4 +439,42 @@ def init : Durable :=
   { bf := { ents := [0] }, ff := { ents := [0] },
     db := { idx := [(0, 0)], btip := some 0, ftip := some 0 } }
 
+/-! ### The index write of one batch as SEVERAL transactions
+
+`addHeaders` writes a batch and its new tip in one `walletdb.Update` (source
+fact `Gen.Store.indexAddOneTransaction`); `writeBlocks` above models exactly
+that.  Here is the same append with the index write cut into any number of
+transactions — `N` transactions are `N` durable steps, each a point where a
+commit can fail or the process can die — so that what the single transaction
+is needed for can be stated: the entries of the chunks that committed stay
+behind when a later one fails, whichever transaction moves the tip. -/
+
+def Db.putAll (db : Db) : List (Nat × Nat) → Db
+  | [] => db
+  | (id, h) :: rest => (db.put id h).putAll rest
+
+/-- heights `start, start+1, …` stamped on the batch -/
+def stamped : List Nat → Nat → List (Nat × Nat)
+  | [], _ => []
+  | id :: rest, h => (id, h) :: stamped rest (h + 1)
+
+/-- the transactions of one index write, in order; the LAST one also moves the
+tip (the arrangement under which no tip ever names a missing entry) -/
+def indexTxs (tip : Option Nat) : List (List (Nat × Nat)) → Ctx → R Bool
+  | [], c => .ok true c
+  | [last], c => dbUpdate (fun db => { db.putAll last with btip := tip.orElse (fun _ => db.btip) }) c
+  | ch :: rest, c =>
+    (dbUpdate (fun db => db.putAll ch) c).bind fun ok c =>
+      if ok then indexTxs tip rest c else .ok false c
+
+/-- `blockHeaderStore.WriteHeaders` over an index that writes the batch as the
+transactions `chunks` (a split of `stamped ids start`) -/
+def writeBlocksSplit (ids : List Nat) (chunks : List (List (Nat × Nat))) (c : Ctx) : R Out :=
+  (appendRaw .B ids c).bind fun ok c =>
+    if !ok then .ok .err c
+    else if ids.isEmpty then .ok .ok c
+    else (indexTxs ids.getLast? chunks c).bind fun ok c =>
+      if ok then .ok .ok c
+      else (truncateHeaders .B ids.length c).bind fun _ c => .ok .err c
+
 end Neutrino.Store
